@@ -13,6 +13,10 @@ CHECKS = {
    text="TLC checks that every behaviour ends (Terminates/Exits under weak fairness), that the loop ends only when all messages are printed and that the 'nothing to poll' exit is unreachable, for all interleavings incl. CAP=1 and channels filled to capacity; the same inputs are executed under many schedules (seeded delays, starved workers, held printer, TLC-simulated behaviours replayed through a turnstile) and must give byte-identical stdout equal to the specification's merge, within a time bound.",
    note="Liveness is checked on the model under weak fairness of each thread; on the code a hang is a run exceeding a generous wall-clock bound.",
    technique="TLA+ model checking (TLC, liveness) + schedule replay + trace validation"),
+ "C18": dict(engine="S4Run", category="model_checking", design_ref="DESIGN.md §6 C18",
+   text="TLC enumerates every placement of SIGINT relative to every worker/coordinator/handler action for 1..3 concurrently extracted sources (invariants NoLeakNormal/NoLeakUnregistered/NoLeakRegistered, liveness SIGINT leads to exit), with the design parameters DROPFIRST (measured from a recorded trace) and REGATOMIC (scanned from decompress_to_ntf) taken from the code; on the real binary SIGINT is raised at the k-th passage of every hook point of every thread (with and without holding the raising thread), at externally swept times, and in turnstile-planned adversarial orders taken from the model's counterexample classes; the oracle is the private TMPDIR after exit, the exit latency and status.",
+   note="A VIOLATION is raised only from an observed leftover file / hang / bad status of the real binary; a model violation under scanned parameters is a prediction that must be reproduced (else DRIFT). One SIGINT per run. Promptness bound 5 s.",
+   technique="TLA+ model checking (TLC) of signal placements + fault enumeration over hook points + turnstile replay"),
 }
 NA_REASON = "check not built yet in this session (work in progress; will be claimed when its machinery exists)"
 
